@@ -24,7 +24,12 @@ class RegexSite(object):
 def regex_sites(cx, port, mods=None):
     p = cx.port(port)
     mods = mods or [cx.engine_mod(port)]
+    cache = cx.__dict__.setdefault('_regex_sites_cache', {})
+    ck = (port, tuple(mods))
+    if ck in cache:
+        return cache[ck]
     out = []
+    cache[ck] = out
     for m in mods:
         consts = p.module_consts(m)
         compiled_mod = {}
@@ -66,6 +71,48 @@ def regex_sites(cx, port, mods=None):
                     fl = const_value(c.args[1], local) if len(c.args) > 1 else ''
                     fl = fl if isinstance(fl, str) else ''
                     out.append(RegexSite(c, fd, pat, 'i' in fl, fl, 'RegExp'))
+    return out
+
+
+def regexes_of(cx, port, fd, depth=1):
+    """every pattern that function fd applies: patterns written (or applied through a compiled object) in fd itself, module-level
+    pattern constants that fd names, and - to the given depth - the same for the engine functions fd calls.  [(pattern, ignorecase, node)]"""
+    p = cx.port(port)
+    m = getattr(fd, 'modname', None) or cx.engine_mod(port)
+    out = [(st.pattern, st.ignorecase, st.node) for st in regex_sites(cx, port, [m]) if st.func is fd and st.pattern is not None]
+    consts = p.module_consts(m)
+    modpats = {}
+    for st in p.modules[m].body:
+        if isinstance(st, ast.Assign) and len(st.targets) == 1 and isinstance(st.targets[0], ast.Name) and isinstance(st.value, ast.Call):
+            d = dotted(st.value.func)
+            v = st.value
+            if d == '__regex__':
+                modpats[st.targets[0].id] = (v.args[0].value, 'i' in v.args[1].value, v)
+            elif d == 're.compile' and v.args:
+                pat = _pattern_value(v.args[0], consts)
+                ftxt = ' '.join(node_text(a) for a in v.args[1:]) + ' ' + ' '.join(node_text(k.value) for k in v.keywords)
+                if pat is not None:
+                    modpats[st.targets[0].id] = (pat, 'IGNORECASE' in ftxt or 're.I' in ftxt.split() or pat.startswith('(?i)'), v)
+            elif d == 'RegExp' and v.args:
+                pat = _pattern_value(v.args[0], consts)
+                fl = const_value(v.args[1], consts) if len(v.args) > 1 else ''
+                if pat is not None:
+                    modpats[st.targets[0].id] = (pat, 'i' in (fl if isinstance(fl, str) else ''), v)
+    seen_nodes = {id(n) for _, _, n in out}
+    applied_here = {st.node.func.value.id for st in regex_sites(cx, port, [m]) if st.func is fd and isinstance(st.node.func, ast.Attribute) and isinstance(st.node.func.value, ast.Name)} if port == 'py' else set()
+    for n in walk_no_nested(fd):
+        if isinstance(n, ast.Name) and isinstance(n.ctx, ast.Load) and n.id in modpats and n.id not in applied_here and id(modpats[n.id][2]) not in seen_nodes:
+            seen_nodes.add(id(modpats[n.id][2]))
+            out.append(modpats[n.id])
+    if depth > 0:
+        for c in walk_no_nested(fd):
+            if isinstance(c, ast.Call) and isinstance(c.func, ast.Name):
+                g = p.func(m, c.func.id, required=False)
+                if g is not None and g is not fd:
+                    for item in regexes_of(cx, port, g, depth - 1):
+                        if id(item[2]) not in seen_nodes:
+                            seen_nodes.add(id(item[2]))
+                            out.append(item)
     return out
 
 
@@ -259,31 +306,227 @@ def rule_pa_litorder(cx, rep, port):
                 ops.add(c.func.attr)
             if isinstance(c, ast.Call) and (dotted(c.func) or '').startswith('re.'):
                 ops.add(dotted(c.func))
-    allowed = {'split', 'strip', 'trim', 'startswith', 'startsWith', 'join', 'rstrip', 'map', 'filter', 'replace'}
+    allowed = {'split', 'strip', 'trim', 'lstrip', 'trimStart', 'trimEnd', 'trimLeft', 'trimRight', 'startswith', 'startsWith', 'join', 'rstrip', 'map', 'filter', 'replace'}
     extra = ops - allowed
     rep.decide(not extra, 'cleanup operations', cq, 'cleanup uses only line splitting, trimming, comment-line removal, joining, final-semicolon removal', 'cleanup_query/strip_comments apply {} to the raw text (literal contents could change)'.format(sorted(extra)))
     if 'replace' in ops:
         r = [c for fd in (cq, sc) for c in walk_no_nested(fd) if isinstance(c, ast.Call) and isinstance(c.func, ast.Attribute) and c.func.attr == 'replace']
         ok = all(isinstance(c.args[0], ast.Call) and dotted(c.args[0].func) == '__regex__' and c.args[0].args[0].value == ';+$' for c in r)
         rep.decide(ok, 'cleanup replace', r[0], 'the only replace removes trailing semicolons', 'cleanup replaces `{}` in the raw text'.format(node_text(r[0].args[0])))
-    t = node_text(sc, 600).replace(' ', '')
-    okc = ("ifcline.startswith('#'):return''" in t) if port == 'py' else ("ifcline.startsWith('//'):return''" in t)
-    rep.decide(okc, 'comment lines', sc, 'only lines that *start* with the comment marker are dropped', 'comment stripping is no longer restricted to lines starting with the comment marker')
+    _comment_lines(rep, p, mod, port, cq, sc)
     sp = p.func(mod, 'shallow_parse_input_query')
     calls = [(c.lineno, call_name(c)) for c in walk_no_nested(sp) if isinstance(c, ast.Call) and call_name(c) in ('cleanup_query', 'separate_string_literals', 'separate_actions', 'remove_redundant_input_table_name', 'remove_redundant_table_name')]
     order = [n for _, n in sorted(calls)]
     rep.decide(order[:2] == ['cleanup_query', 'separate_string_literals'] and order[-1] == 'separate_actions', 'parser order', sp, 'cleanup -> literal extraction -> (redundant table name removal) -> clause separation', 'parser stages run in the order {}'.format(order))
-    # marker round trip: separate uses ___RBQL_STRING_LITERAL{id}___ ; combine replaces the same marker by literal i
-    t1 = node_text(ssl, 3000)
+    _literal_markers(rep, p, mod, ssl)
+
+
+def marker_template(e):
+    """(prefix, suffix, hole expression) of an expression that builds '<prefix><hole><suffix>': 'a{}b'.format(h), f'a{h}b',
+    'a' + str(h) + 'b', 'a%db' % h"""
+    if isinstance(e, ast.Call) and isinstance(e.func, ast.Attribute) and e.func.attr == 'format' and isinstance(e.func.value, ast.Constant) and isinstance(e.func.value.value, str) and len(e.args) == 1 and not e.keywords:
+        t = e.func.value.value
+        for hole in ('{}', '{0}', '{:d}'):
+            if t.count(hole) == 1 and t.count('{') == 1:
+                pre, suf = t.split(hole)
+                return pre, suf, e.args[0]
+        return None
+    if isinstance(e, ast.JoinedStr):
+        holes = [v for v in e.values if isinstance(v, ast.FormattedValue)]
+        if len(holes) != 1:
+            return None
+        i = e.values.index(holes[0])
+        pre = ''.join(v.value for v in e.values[:i] if isinstance(v, ast.Constant))
+        suf = ''.join(v.value for v in e.values[i + 1:] if isinstance(v, ast.Constant))
+        return pre, suf, holes[0].value
+    if isinstance(e, ast.BinOp) and isinstance(e.op, ast.Add):
+        parts = concat_parts(e)
+        consts = [isinstance(x, ast.Constant) and isinstance(x.value, str) for x in parts]
+        if len(parts) == 3 and consts == [True, False, True]:
+            h = parts[1]
+            if isinstance(h, ast.Call) and dotted(h.func) in ('str', 'String') and len(h.args) == 1:
+                h = h.args[0]
+            return parts[0].value, parts[2].value, h
+        return None
+    if isinstance(e, ast.BinOp) and isinstance(e.op, ast.Mod) and isinstance(e.left, ast.Constant) and isinstance(e.left.value, str):
+        t = e.left.value
+        for hole in ('%d', '%s', '%i'):
+            if t.count(hole) == 1 and t.count('%') == 1:
+                pre, suf = t.split(hole)
+                h = e.right.elts[0] if isinstance(e.right, ast.Tuple) and len(e.right.elts) == 1 else e.right
+                return pre, suf, h
+    return None
+
+
+def concat_parts(e):
+    if isinstance(e, ast.BinOp) and isinstance(e.op, ast.Add):
+        return concat_parts(e.left) + concat_parts(e.right)
+    return [e]
+
+
+def _literal_markers(rep, p, mod, ssl):
+    """extraction replaces literal number i (i = its position in the returned list, the whole literal incl. quotes is stored) by
+    marker(i); re-insertion replaces marker(i) by element i of the list, for every i"""
+    from .. import snippet
     cb = p.func(mod, 'combine_string_literals')
-    t2 = node_text(cb, 1000)
-    if port == 'py':
-        okm = "'___RBQL_STRING_LITERAL{}___'.format(literal_id)" in t1 and "'___RBQL_STRING_LITERAL{}___'.format(i), string_literals[i]" in t2
+    # --- extraction
+    rets = [r for r in walk_no_nested(ssl) if isinstance(r, ast.Return) and isinstance(r.value, (ast.Tuple, ast.List)) and len(r.value.elts) == 2]
+    if len(rets) != 1 or not isinstance(rets[0].value.elts[1], ast.Name):
+        rep.undecided('literal ids', ssl, 'returned (text, literal list) pair not recognised')
+        return
+    lst = rets[0].value.elts[1].id
+    apps = [c for c in walk_no_nested(ssl) if isinstance(c, ast.Call) and isinstance(c.func, ast.Attribute) and c.func.attr in ('append', 'push') and is_name(c.func.value, lst)]
+    marks = [(x, marker_template(x)) for x in walk_no_nested(ssl) if isinstance(x, (ast.Call, ast.JoinedStr, ast.BinOp))]
+    marks = [(x, m) for x, m in marks if m is not None and 'RBQL_STRING_LITERAL' in m[0]]
+    if len(apps) != 1 or len(marks) != 1:
+        rep.undecided('literal ids', ssl, 'expected one literal append and one marker construction, found {} and {}'.format(len(apps), len(marks)))
+        return
+    app, (mnode, (pre, suf, hole)) = apps[0], marks[0]
+    loop = app
+    while loop is not None and not isinstance(loop, (ast.For, ast.While)):
+        loop = getattr(loop, 'parent', None)
+    app_stmt = app
+    while not isinstance(app_stmt, ast.stmt):
+        app_stmt = app_stmt.parent
+    if loop is None or app_stmt not in loop.body:
+        rep.undecided('literal ids', app, 'the literal is not appended unconditionally in the extraction loop')
+        return
+    # what is stored: the whole match
+    stored = snippet.inline_single_defs(app.args[0], ssl)
+    whole = (isinstance(stored, ast.Call) and isinstance(stored.func, ast.Attribute) and stored.func.attr == 'group' and (not stored.args or const_value(stored.args[0]) == 0)) or (isinstance(stored, ast.Subscript) and const_value(stored.slice) == 0)
+    part = (isinstance(stored, ast.Call) and isinstance(stored.func, ast.Attribute) and stored.func.attr == 'group') or isinstance(stored, ast.Subscript)
+    # the id: len(list) evaluated before the append of the same iteration, or the loop's enumerate counter from 0
+    id_ok = None
+    h = hole
+    hstmt = mnode
+    while not isinstance(hstmt, ast.stmt):
+        hstmt = hstmt.parent
+    if isinstance(h, ast.Name):
+        hdefs = [n for n in walk_no_nested(ssl) if isinstance(n, ast.Assign) and len(n.targets) == 1 and is_name(n.targets[0], h.id)]
+        if len(hdefs) == 1 and hdefs[0] in loop.body:
+            hstmt, h = hdefs[0], hdefs[0].value
+        elif isinstance(loop, ast.For) and isinstance(loop.target, ast.Tuple) and is_name(loop.target.elts[0], h.id) and isinstance(loop.iter, ast.Call) and dotted(loop.iter.func) == 'enumerate':
+            start = loop.iter.args[1] if len(loop.iter.args) > 1 else next((k.value for k in loop.iter.keywords if k.arg == 'start'), None)
+            fresh = [n for n in walk_no_nested(ssl) if isinstance(n, ast.Assign) and is_name(n.targets[0], lst)]
+            id_ok = (start is None or const_value(start) == 0) and len(fresh) == 1 and fresh[0].lineno < loop.lineno
+            if not id_ok and start is not None and const_value(start) not in (0, NOCONST):
+                rep.violated('literal ids', loop, 'literal markers are numbered from {} while the literals are stored from position 0'.format(const_value(start)))
+                return
+    if id_ok is None and isinstance(h, ast.Call) and dotted(h.func) == 'len' and h.args and is_name(h.args[0], lst) and hstmt in loop.body:
+        before = loop.body.index(hstmt) < loop.body.index(app_stmt)
+        if not before:
+            rep.violated('literal ids', hstmt, 'the marker number is taken after the literal was appended: marker i refers to literal i-1')
+            return
+        id_ok = True
+    if id_ok is None and isinstance(h, ast.BinOp) and any(isinstance(x, ast.Call) and dotted(x.func) == 'len' and x.args and is_name(x.args[0], lst) for x in ast.walk(h)):
+        rep.violated('literal ids', hstmt, 'the marker number `{}` is shifted against the position of the literal in the list'.format(node_text(h)))
+        return
+    if not whole and part:
+        rep.violated('literal ids', app, 'only a part of the literal (`{}`) is stored: the quotes or the body are lost on re-insertion'.format(node_text(stored)))
+    elif id_ok and whole:
+        rep.holds('literal ids', app, 'literal id = its position in the literal list; the whole literal including quotes is stored')
     else:
-        okm = "f'___RBQL_STRING_LITERAL{literal_id}___'" in t1 and "f'___RBQL_STRING_LITERAL{i}___', string_literals[i]" in t2
-    rep.decide(okm, 'literal markers', cb, 'literal i is replaced by marker i and marker i by literal i', 'the literal marker used for extraction and re-insertion differ, or the index is shifted')
-    okid = 'literal_id = len(string_literals)' in t1 and ('string_literals.append(m.group(0))' in t1 or 'string_literals.push(string_literal)' in t1)
-    rep.decide(okid, 'literal ids', ssl, 'literal id = its position in the literal list; the whole literal including quotes is stored', 'literal ids no longer equal the position of the literal in the list / the stored text is not the whole literal')
+        rep.undecided('literal ids', app, 'numbering of the markers / stored text not recognised')
+    # --- re-insertion
+    cmarks = [(x, marker_template(x)) for x in walk_no_nested(cb) if isinstance(x, (ast.Call, ast.JoinedStr, ast.BinOp))]
+    cmarks = [(x, m) for x, m in cmarks if m is not None and 'RBQL_STRING_LITERAL' in m[0]]
+    if len(cmarks) != 1:
+        rep.undecided('literal markers', cb, 'marker construction in combine_string_literals not recognised')
+        return
+    cnode, (cpre, csuf, chole) = cmarks[0]
+    if (cpre, csuf) != (pre, suf):
+        rep.violated('literal markers', cnode, 'extraction writes markers `{}N{}`, re-insertion looks for `{}N{}`'.format(pre, suf, cpre, csuf))
+        return
+    lparam = cb.args.args[1].arg
+    call = cnode
+    while call is not None and not (isinstance(call, ast.Call) and cnode is not call and any(cnode is a for a in call.args)):
+        call = getattr(call, 'parent', None)
+    repl = None
+    if call is not None:
+        i = [k for k, a in enumerate(call.args) if a is cnode][0]
+        repl = call.args[i + 1] if i + 1 < len(call.args) else None
+    cloop = cnode
+    while cloop is not None and not isinstance(cloop, (ast.For, ast.While)):
+        cloop = getattr(cloop, 'parent', None)
+    full = isinstance(cloop, ast.For) and ((isinstance(cloop.iter, ast.Call) and dotted(cloop.iter.func) == 'range' and (len(cloop.iter.args) == 1 or (len(cloop.iter.args) == 2 and const_value(cloop.iter.args[0]) == 0)) and isinstance(cloop.iter.args[-1], ast.Call) and dotted(cloop.iter.args[-1].func) == 'len' and is_name(cloop.iter.args[-1].args[0], lparam)) or (isinstance(cloop.iter, ast.Call) and dotted(cloop.iter.func) == 'enumerate' and cloop.iter.args and is_name(cloop.iter.args[0], lparam) and len(cloop.iter.args) == 1 and not cloop.iter.keywords))
+    same = False
+    if repl is not None and isinstance(chole, ast.Name):
+        if isinstance(repl, ast.Subscript) and is_name(repl.value, lparam) and is_name(repl.slice, chole.id):
+            same = True
+        elif isinstance(cloop, ast.For) and isinstance(cloop.target, ast.Tuple) and len(cloop.target.elts) == 2 and is_name(cloop.target.elts[0], chole.id) and isinstance(repl, ast.Name) and is_name(cloop.target.elts[1], repl.id):
+            same = True
+    if repl is not None and isinstance(repl, ast.Subscript) and is_name(repl.value, lparam) and not same and isinstance(repl.slice, ast.BinOp):
+        rep.violated('literal markers', call, 'marker `{}` is replaced by element `{}` of the literal list: the index is shifted'.format(node_text(chole), node_text(repl.slice)))
+    elif same and full:
+        rep.holds('literal markers', cnode, 'literal i is replaced by marker i and marker i by literal i, for every i')
+    else:
+        rep.undecided('literal markers', cnode, 're-insertion loop not recognised (marker index `{}`, replacement `{}`)'.format(node_text(chole), node_text(repl) if repl is not None else None))
+
+
+def _comment_lines(rep, p, mod, port, cq, sc):
+    """only lines that *start* (after surrounding blanks) with the comment marker are dropped; lines are stripped before the
+    empty-line filter sees them"""
+    from .. import snippet
+    marker = '#' if port == 'py' else '//'
+    prm = sc.args.args[0].arg
+    empties = [r for r in walk_no_nested(sc) if isinstance(r, ast.Return) and const_value(r.value) == '']
+    if not empties:
+        rep.undecided('comment lines', sc, 'no `return \'\'` in strip_comments')
+        return
+    verdict = True
+    for r in empties:
+        g = getattr(r, 'parent', None)
+        if not isinstance(g, ast.If) or r not in g.body:
+            verdict = None
+            continue
+        t = snippet.inline_single_defs(g.test, sc)
+        ok = isinstance(t, ast.Call) and isinstance(t.func, ast.Attribute) and t.func.attr in ('startswith', 'startsWith') and t.args and const_value(t.args[0]) == marker
+        if ok:
+            recv = t.func.value
+            while isinstance(recv, ast.Call) and isinstance(recv.func, ast.Attribute) and recv.func.attr in ('strip', 'lstrip', 'trim', 'trimStart', 'trimLeft'):
+                recv = recv.func.value
+            ok = isinstance(recv, ast.Name)
+        if ok:
+            continue
+        uses_marker = any(const_value(x) == marker for x in ast.walk(t) if isinstance(x, ast.Constant))
+        if uses_marker:
+            rep.violated('comment lines', g, 'a line is dropped when `{}`: comment stripping is no longer restricted to lines that start with the comment marker (a marker inside a string literal cuts the query)'.format(node_text(g.test, 80)))
+            return
+        verdict = None
+    # any other cutting of the line at the marker
+    cuts = [c for c in walk_no_nested(sc) if isinstance(c, ast.Call) and isinstance(c.func, ast.Attribute) and c.func.attr in ('split', 'find', 'index', 'indexOf', 'partition') and c.args and const_value(c.args[0]) == marker]
+    if cuts:
+        rep.violated('comment lines', cuts[0], 'the line is searched for the comment marker at any position (`{}`): text after a marker inside a string literal is lost'.format(node_text(cuts[0], 60)))
+        return
+    if verdict:
+        rep.holds('comment lines', sc, 'only lines that start with the comment marker are dropped')
+    else:
+        rep.undecided('comment lines', sc, 'comment test not recognised')
+    # what reaches the empty-line filter is stripped
+    others = [r for r in walk_no_nested(sc) if isinstance(r, ast.Return) and r not in empties and r.value is not None]
+    stripped_ret = True
+    for r in others:
+        v = snippet.inline_single_defs(r.value, sc)
+        # the returned text is the stripped parameter: `x.strip()` or a name (re)bound to it
+        ok = isinstance(v, ast.Call) and isinstance(v.func, ast.Attribute) and v.func.attr in ('strip', 'trim')
+        if not ok and isinstance(v, ast.Name):
+            defs = [n for n in walk_no_nested(sc) if isinstance(n, ast.Assign) and is_name(n.targets[0], v.id)]
+            ok = bool(defs) and all(isinstance(d.value, ast.Call) and isinstance(d.value.func, ast.Attribute) and d.value.func.attr in ('strip', 'trim') for d in defs)
+        stripped_ret = stripped_ret and ok
+    filt = []
+    for n in ast.walk(cq):
+        if isinstance(n, ast.comprehension):
+            filt.extend((i, n) for i in n.ifs)
+        if isinstance(n, ast.Call) and isinstance(n.func, ast.Attribute) and n.func.attr == 'filter' and n.args:
+            filt.append((n.args[0], n))
+    if not filt:
+        rep.undecided('empty-line filter', cq, 'no empty-line filter found in cleanup_query')
+        return
+    fexpr = filt[0][0]
+    own_strip = any(isinstance(x, ast.Call) and isinstance(x.func, ast.Attribute) and x.func.attr in ('strip', 'trim') for x in ast.walk(fexpr))
+    if getattr(fexpr, 'js_function_ref', None) is not None:
+        own_strip = own_strip or any(isinstance(x, ast.Call) and isinstance(x.func, ast.Attribute) and x.func.attr in ('strip', 'trim') for x in ast.walk(fexpr.js_function_ref))
+    rep.decide(stripped_ret or own_strip, 'empty-line filter', filt[0][1], 'the empty-line filter sees stripped lines', 'strip_comments hands back unstripped lines and the empty-line filter tests them as they are: a whitespace-only line survives, and after a trailing `;` it keeps the semicolon from being removed')
 
 
 RAW, CLEAN = 'raw', 'clean'
@@ -582,20 +825,76 @@ def _tainted_guard(r, fd, tv):
     return None
 
 
+def _find_top_semantics(rep, ft, port):
+    """what find_top returns, per path: with a LIMIT clause the integer value of its text (or a parsing error), otherwise the TOP
+    value of the SELECT clause (or nothing); the choice is made by presence of the clause, never by the truthiness of a value"""
+    from .. import pathsem
+    ps = pathsem.paths(ft)
+    if ps is None:
+        rep.undecided('LIMIT first', ft, 'find_top is not loop-free straight-line code')
+        return
+    arg = ft.args.args[0].arg
+
+    def is_limit_test(e):
+        t = node_text(e, 200).replace(' ', '')
+        return t in ('LIMITin' + arg, arg + '.hasOwnProperty(LIMIT)', 'LIMITin{}.keys()'.format(arg))
+
+    def mentions_limit_text(e):
+        return any(isinstance(x, ast.Subscript) and dotted(x.value) == arg and dotted(x.slice) == 'LIMIT' for x in ast.walk(e))
+
+    def mentions_top(e):
+        return any(isinstance(x, ast.Constant) and x.value == 'top' for x in ast.walk(e))
+    n_lim = n_top = 0
+    raises_parse = False
+    for q in ps:
+        present = None
+        for atom, pol in pathsem.atoms(q.conds):
+            if is_limit_test(atom):
+                present = pol
+        if q.kind == 'raise':
+            if q.value is not None and 'RbqlParsingError' in node_text(q.value, 200) and present is not False:
+                raises_parse = True
+            continue
+        if q.kind != 'return':
+            continue
+        v = q.value
+        if isinstance(v, ast.BoolOp) or (isinstance(v, ast.IfExp) and not is_limit_test(v.test) and not (isinstance(v.test, ast.UnaryOp) and is_limit_test(v.test.operand)) and mentions_limit_text(v) and mentions_top(v)):
+            rep.violated('LIMIT first', q.node, 'find_top chooses between the LIMIT and the TOP value by truthiness (`{}`): `LIMIT 0` falls through to TOP / to "no limit"'.format(node_text(v, 90)))
+            return
+        if present is True:
+            conv = [c for c in ast.walk(v) if isinstance(c, ast.Call) and dotted(c.func) in ('int', 'parseInt', 'Number') and c.args and mentions_limit_text(c.args[0])]
+            if conv and (isinstance(v, ast.Call) and v is conv[0]):
+                n_lim += 1
+            elif mentions_top(v) and not mentions_limit_text(v):
+                rep.violated('LIMIT first', q.node, 'with a LIMIT clause present find_top can return the TOP value (`{}`): LIMIT no longer wins'.format(node_text(v, 80)))
+                return
+            else:
+                rep.violated('LIMIT value', q.node, 'with a LIMIT clause the bound returned is `{}`, not the integer value of the clause text'.format(node_text(v, 80))) if mentions_limit_text(v) else rep.undecided('LIMIT value', q.node, 'value returned for LIMIT not recognised: `{}`'.format(node_text(v, 80)))
+                return
+        elif present is False:
+            if mentions_limit_text(v):
+                rep.violated('TOP value', q.node, 'without a LIMIT clause find_top reads the LIMIT clause')
+                return
+            if mentions_top(v) or (isinstance(v, ast.Constant) and v.value is None):
+                n_top += 1
+            else:
+                rep.undecided('TOP value', q.node, 'value returned without LIMIT not recognised: `{}`'.format(node_text(v, 80)))
+                return
+        else:
+            if mentions_top(v) and not mentions_limit_text(v):
+                rep.violated('LIMIT first', q.node, 'find_top returns the TOP value on a path that never tested for a LIMIT clause: LIMIT no longer wins over TOP')
+                return
+            rep.undecided('LIMIT first', q.node, 'a path returns `{}` without testing for the LIMIT clause'.format(node_text(v, 80)))
+            return
+    rep.decide(n_lim >= 1 and n_top >= 1, 'LIMIT first', ft, 'LIMIT present -> its integer value; absent -> the TOP value of SELECT (or none)', 'find_top has no path for {}'.format('the LIMIT clause' if not n_lim else 'the TOP value'))
+    rep.decide(raises_parse, 'LIMIT integer', ft, 'a non-integer LIMIT is a parsing error', 'a non-integer LIMIT is not a parsing error')
+
+
 def rule_pa_top(cx, rep, port):
     p = cx.port(port)
     mod = cx.engine_mod(port)
     ft = p.func(mod, 'find_top')
-    first = ft.body[0]
-    ok1 = isinstance(first, ast.If) and ('LIMIT in rb_actions' == node_text(first.test) or 'rb_actions.hasOwnProperty(LIMIT)' == node_text(first.test))
-    rep.decide(ok1, 'LIMIT first', first, 'LIMIT is consulted first (LIMIT wins over TOP)', 'find_top no longer consults LIMIT before TOP')
-    rs = [r for r in ast.walk(first) if isinstance(r, ast.Raise)]
-    rep.decide(len(rs) == 1 and 'RbqlParsingError' in node_text(rs[0]), 'LIMIT integer', rs[0] if rs else first, 'a non-integer LIMIT is a parsing error', 'a non-integer LIMIT is not a parsing error')
-    t = node_text(ft, 2000)
-    okr = ("int(rb_actions[LIMIT]['text'])" in t) if port == 'py' else ("parseInt(rb_actions[LIMIT]['text'])" in t)
-    rep.decide(okr, 'LIMIT value', ft, 'the bound is the integer after LIMIT', 'the LIMIT bound is not the integer value of the clause text')
-    okt = ("rb_actions[SELECT].get('top', None)" in t) if port == 'py' else ("select_action['top']" in t)
-    rep.decide(okt, 'TOP value', ft, 'otherwise the TOP value of the SELECT clause', 'find_top does not fall back to the TOP value')
+    _find_top_semantics(rep, ft, port)
     sa = p.func(mod, 'separate_actions')
     ts = node_text(sa, 8000)
     oktop = ("statement_params['top'] = int(match.group(1))" in ts) if port == 'py' else ("statement_params['top'] = parseInt(match[1])" in ts)
